@@ -103,6 +103,9 @@ package boltz
 //@   nosafety
 //@   modifies *, ocCnt, ocFn, ocRecv, cxN, cxWho, cxPhase, cxCtx, cxPersist, edDone
 //@   callpre[persists-a-new-entity-into-the-bucket-just-created] PersistEntity@1: arg0 == entity && arg1 != nil && arg1.Bucket == local(bucket) && arg1.IsCreate && arg1.Id == entId(ref(entity)) && arg1.MutateContext == ctx && arg1.Store == store.impl && arg1.FieldChecker == nil
+//@   clauseprops the-id-is-new C03 C15
+//@   callpre[the-id-is-new-in-the-entities-bucket] getOrCreateEntityBucket@1: sEnts(store, arg0) != 0 ==> !sEntHas(store, arg0, str(arg1))
+//@   callpre[a-root-store-creates-only-ids-that-are-new] getOrCreateEntityBucket@1: store.parent == nil && sEnts(store, arg0) != 0 ==> !sEntHas(store, arg0, str(arg1))
 //@   callpre[the-entity's-bucket-is-made-for-its-id] getOrCreateEntityBucket@1: recv == store && str(arg1) == entId(ref(entity))
 //@   callpre[persist-then-after-update-before-the-change-is-announced] loadFinalState@1: !holderFailed[ret(getOrCreateEntityBucket, 1)] ==> cxPersist >= old(cxN) && cxN >= cxPersist + len(store.Indexer.constraints) && cxSegment(cxN, store.Indexer.constraints, len(store.Indexer.constraints), 2, sel(cxCtx, cxN - 1))
 //@   callpre[after-update-with-a-create-context-for-this-row] ProcessAfterUpdate@1: recv.IsCreate && str(recv.RowId) == entId(ref(entity)) && recv.Ctx == ctx && recv.Indexer == store.Indexer && ref(recv.ErrHolder) == ref(ret(getOrCreateEntityBucket, 1))
